@@ -286,6 +286,8 @@ ApplyEv(o, e) ==
          [ObsInit EXCEPT !.cfg = e.cfg, !.allowNew = e.cfg.allow_new, !.susp = e.cfg.suspect_peer, !.allowed = e.cfg.allow_peer]
     [] e.ev = "persist" ->
          [o EXCEPT !.rec = Put(o.rec, e.sid, e)]
+    [] e.ev = "downgraded" ->    \* the environment rewrote the stored record while the node was down (legacy protocol-6 record)
+         [o EXCEPT !.rec = Put(o.rec, e.sid, e.rec)]
     [] e.ev = "ln.htlc" ->
          [o EXCEPT !.claim = Put(o.claim, e.sid, [status |-> (CASE e.res = "ok" -> "succeeded" [] e.res = "err_settled" -> "succeeded"
                                                                 [] e.res = "err_pending" -> "inflight" [] OTHER -> "failed"),
